@@ -12,6 +12,26 @@ CLAIMS['C11'] = {
   'note': "Trusted: CBMC C++ front end + stub std::vector (growth beyond the frame's capacity modelled as fresh allocation); memcpy by assumed contract (specs/common/memcpy_contract.h); class template instead of member templates. n/d: std::string/colvarvalue specialisations, backup_file/rename ordering, text state.",
   'design_ref': '§4 C11',
 }
+CLAIMS['C06'] = {
+  'text': "Contracts on the verbatim bodies of the harmonic and harmonic-walls restraint functions (potential, force, dU/dk, wall selection including the closest-wall rule for periodic variables) and of colvarbias_restraint_centers_moving::update / update_acc_work, discharged by CBMC dfcc with real arithmetic kept symbolic: each function returns exactly the documented expression over the variable's own (shortest-image) metric, the staged/continuous centre schedule advances as a function of the absolute step only (never on the repeated first step of a run segment), and accumulated work gets one force*increment term per variable on advancing steps inside the schedule.",
+  'note': "Real arithmetic is uninterpreted (term structure, not floating-point values); class colvar/colvarvalue are stand-ins; moving-centre tasks are bounded (2 variables, schedule length 10, 32-bit step numbers). n/d: linear/histogram restraints, ABMD, k_moving schedule, interpolation on manifolds, TI averages.",
+  'design_ref': '§4 C06',
+}
+CLAIMS['C13'] = {
+  'text': "Contracts on the verbatim bodies of colvardeps::disable and colvardeps::decr_ref_count discharged by CBMC dfcc: a capability that is off or still referenced by more than one requirer is never switched off (error, no state change); switching one off releases each self prerequisite and each remembered alternate exactly once, forgets the alternates, releases children's prerequisites once per (child, requirement) only while the object is active, and a reference count never goes below zero.",
+  'note': "Bounded stand-in for disable (4 features, <=2 entries per list, <=2 children; loops unwound); children and the recursive callees are counting stubs. n/d: enable(), destructors, atom release, 'values as if the deleted objects never existed'.",
+  'design_ref': '§4 C13',
+}
+CLAIMS['C08'] = {
+  'text': "Contract on the verbatim body of colvarbias::communicate_forces discharged by CBMC dfcc: a bias that does not apply forces sends nothing; otherwise every variable receives exactly one call, on the actual-value entry iff the bias bypasses the extended Lagrangian, whose operand is time_step_factor * force * scaling factor (impulse-style multiple time step), and the previous forces are recorded.",
+  'note': "Bounded (<=3 variables); products are logged uninterpreted operations; colvar entry points are logging stubs. n/d: calc_colvars awake schedule, calc_biases energy sum, update_forces_energy.",
+  'design_ref': '§4 C08',
+}
+CLAIMS['C03'] = {
+  'text': "Mechanisms a resumed run relies on, as contracts on verbatim bodies: colvarbias::can_accumulate_data is true exactly when the step is not the repeated first step of a segment (or step-zero data is requested); the moving-centre restraint schedule and work accumulation do nothing on the repeated step and depend on the absolute step only; the binary stream reads back every object and vector exactly as written (C11 lemmas).",
+  'note': "Whole-run equality of two executions is not a contract of one call and is not decided; text state, metadynamics/ABF/histogram accumulators and k_moving are n/d here.",
+  'design_ref': '§4 C03',
+}
 NOT_APPLICABLE = {
  'C12': "quantifies over thread schedules; sequential contract verification (CBMC dfcc) cannot express it and the C++ front end has no OpenMP (DESIGN.md §4 C12)",
 }
